@@ -303,7 +303,19 @@ def rule_ordered(ctx: Ctx) -> None:
     ctx.floor("C03.5", "iterations on the dispatch path", n, 6)
 
 
+def rule_uniform_start(ctx: Ctx) -> None:
+    from .c12 import stage_analysis
+    fn, order, invocations = stage_analysis(ctx)
+    ctx.floor("C03.6", "handler invocations in _dispatch_event", len(invocations), 1)
+    prims = sorted({p for _, p, _, _ in invocations})
+    ctx.check(prims == ["gather"], "C03.6", "handlers of every event start through the same primitive, whatever their number", fn, fn.node,
+              "all via asyncio.gather", f"handlers are started via {prims}: an event with one handler runs it at once while an event with several "
+              "starts them as tasks on a later loop iteration, so with max_concurrent >= 2 the lone handler of a later same-time event overtakes "
+              "the handlers of an earlier one (fills and balances depend on max_concurrent)")
+
+
 def run(ctx: Ctx) -> None:
+    rule_uniform_start(ctx)
     rule_snapshot(ctx)
     rule_exchange_handler(ctx)
     rule_callers(ctx)
